@@ -20,15 +20,22 @@ LEVEL_TEXT = (
     "/ initializer for GP and wrapped in a tracked Population) reaches tracker.evaluate, none twice, and nothing "
     "is evaluated after 'done'; (R3) every SearchBudget.is_done is interpreted against a scripted tracker: "
     "EvaluationBudget is 'evaluations >= limit' (9, 10, 11, 25 against 10), AnyOf is the disjunction with both "
-    "members consulted on the given tracker (truth table), TargetFitness is false while there is no best and "
-    "compares the best individual's first fitness component with the target within an absolute tolerance (targets"
-    " 0, 5 and 1000 on a minimised problem, where the aggregate differs and a relative tolerance would give other"
-    " answers); (R4) trackers / evaluators / budgets keep no state shared between searches; (R5) the tracked "
-    "population wrapper of the GP search (a constructor taking an iterable of individuals and a tracker) - "
-    "wherever it lives and however it is built - is interpreted on [already evaluated, not evaluated]: every "
-    "individual is handed to the tracker, because steps evaluate through the raw evaluator and the tracker's best"
-    " - what a target-fitness budget reads - is updated only inside tracker.evaluate. Termination for arbitrary "
-    "user step compositions is not decidable and not claimed."
+    "members consulted on the given tracker (truth table), TimeBudget is 'elapsed >= limit', TargetFitness is "
+    "false while there is no best and compares the first fitness component the best individual holds FOR THE "
+    "TRACKER'S PROBLEM (the individual also holds a fitness for an earlier problem that gives the opposite "
+    "answer; get_fitness() without a problem returns that one) with the target within an absolute tolerance "
+    "(targets 0, 5 and 1000 on a minimised problem, where the aggregate differs and a relative tolerance would "
+    "give other answers); the multi-objective target budgets are interpreted the same way (one target per "
+    "objective / one target for all, whichever the constructor announces); (R4) trackers / evaluators / budgets "
+    "keep no state shared between searches; (R5) the tracked population wrapper of the GP search (a constructor "
+    "taking an iterable of individuals and a tracker) - wherever it lives and however it is built - is "
+    "interpreted on [already evaluated, not evaluated]: every individual is handed to the tracker, because steps "
+    "evaluate through the raw evaluator and the tracker's best - what a target-fitness budget reads - is updated "
+    "only inside tracker.evaluate. (R6) functions outside the budget module that build a budget from their own "
+    "parameters (SimpleGP.build_budget) are interpreted with the parameter at 0, 0.0, a negative and a positive "
+    "value: the budget returned contains a budget of that class built from that very value (a target of 0 is a "
+    "target), and callers hand the parameter over without an 'or' fall-back. Termination for arbitrary user step "
+    "compositions is not decidable and not claimed."
 )
 
 
